@@ -134,17 +134,19 @@ func oracleTemplates(r *Rng, keys []keyPair, tier string) {
 		ts := sigTemplates(r, kp, templateMsg(r, 0))
 		for ti := range ts {
 			t := &ts[ti]
-			// slow keys (P-384, RSA of 2048 bits and more) take every third template,
-			// owner names always
-			if lightFor(kp, modeAll) == modeLight && t.kind != "owner" && t.kind != "like-rrsig" && (ti+ki)%3 != 0 && tier != "thorough" {
-				continue
+			// slow keys (P-384, RSA of 2048 bits and more) take every third template
+			// (every second owner name); the other four keys take them all
+			if lightFor(kp, modeAll) == modeLight && t.kind != "like-rrsig" && tier != "thorough" {
+				if (t.kind == "owner" && (ti+ki)%2 != 0) || (t.kind != "owner" && (ti+ki)%3 != 0) {
+					continue
+				}
 			}
 			idx++
 			m := templateMsg(r, idx)
 			st["template_"+t.kind]++
 			out := oracleMessageT(r, m, kp, nil, modeLight, t)
 			// the model sees the five fields only: whatever else the value holds, the octets are the model's
-			if out != nil && (idx%5 == 0 || t.kind == "like-rrsig") {
+			if out != nil && (idx%7 == 0 || t.kind == "like-rrsig") {
 				s := newSig(kp, now-3000, now+3000)
 				t.fill(s, kp)
 				emitSign(m, s, kp)
@@ -152,7 +154,7 @@ func oracleTemplates(r *Rng, keys []keyPair, tier string) {
 			}
 			// the value reused: a second message signed with the same value (Signature
 			// cleared, see below), as a responder does with the SIG it took from the request
-			if out != nil && idx%4 == 0 {
+			if out != nil && idx%5 == 0 {
 				var um dns.Msg
 				if um.Unpack(out) == nil && len(um.Extra) > 0 {
 					if us, ok := um.Extra[len(um.Extra)-1].(*dns.SIG); ok {
